@@ -27,6 +27,7 @@ FAULTS = {
     "missing-input": ("qartod", "climatology_test", dict(config=[dict(tspan=[1, 12], period="month", vspan=[0, 5])])),
     "raises": ("qartod", "vraise_test", dict(boom=1)),
     "aggregate-entry": ("qartod", "aggregate", None),
+    "absent-stream-two-tests": None,  # two adjacent entries for a stream id that is not in the data
     "absent-stream": None,  # a healthy entry configured for a stream id that is not in the data
     "no-axes-stream": None,  # (xarray:twodims only) a position test on a variable that lives on another dimension without lat/lon
 }
@@ -75,6 +76,10 @@ def make_contexts(case):
             others.setdefault("ghost", []).append(HEALTHY["gross"])
             fault_keys.append(("ghost", "gross_range_test"))
             continue
+        if f == "absent-stream-two-tests":
+            others.setdefault("ghost2", []).extend([HEALTHY["gross"], HEALTHY["spike"]])
+            fault_keys.extend([("ghost2", "gross_range_test"), ("ghost2", "spike_test")])
+            continue
         if f == "no-axes-stream":
             others.setdefault("u", []).append(("qartod", "location_test", dict(bbox=[-10, -10, 30, 10])))
             fault_keys.append(("u", "location_test"))
@@ -94,7 +99,7 @@ def make_contexts(case):
     streams = {}
     if case.get("ghost_first"):
         for sid, es in others.items():
-            if sid == "ghost":
+            if sid.startswith("ghost"):
                 streams[sid] = build_stream(es)
     streams["v"] = build_stream(main)
     for sid, es in others.items():
@@ -208,23 +213,23 @@ def run_task(task, acc):
 
     def gen():
         for combo in fault_sets(maxf):
-            if "absent-stream" in combo and fe in ("numpy:nd", "qcconfig"):
+            if ("absent-stream" in combo or "absent-stream-two-tests" in combo) and fe in ("numpy:nd", "qcconfig"):
                 continue
             if "no-axes-stream" in combo and fe != "xarray:twodims":
                 continue
-            real = [f for f in combo if f not in ("absent-stream", "no-axes-stream")]
+            real = [f for f in combo if f not in ("absent-stream", "no-axes-stream", "absent-stream-two-tests")]
             # (a) all in the same stream, every order relative to the healthy entries
             k = len(hs) + len(real)
             perms = list(itertools.permutations(range(k))) if len(real) <= 2 else [tuple(range(k)), tuple(reversed(range(k)))]
             for order in perms:
                 yield dict(fe=fe, n=n, healthy=hs, faults=[[f, "same-stream"] for f in combo], order=list(order))
-                if "absent-stream" in combo:
+                if "absent-stream" in combo or "absent-stream-two-tests" in combo:
                     yield dict(fe=fe, n=n, healthy=hs, faults=[[f, "same-stream"] for f in combo], order=list(order), ghost_first=True)
             # (b) every other placement (all faults together), (c) mixed: first fault in-stream, the rest elsewhere
             for place in PLACEMENTS[1:]:
                 if fe in ("numpy:nd", "qcconfig") and place == "other-stream":
                     continue
                 yield dict(fe=fe, n=n, healthy=hs, faults=[[f, place] for f in combo], order=[])
-                if len(real) >= 2 and combo[0] not in ("absent-stream", "no-axes-stream"):
+                if len(real) >= 2 and combo[0] not in ("absent-stream", "no-axes-stream", "absent-stream-two-tests"):
                     yield dict(fe=fe, n=n, healthy=hs, faults=[[combo[0], "same-stream"]] + [[f, place] for f in combo[1:]], order=[])
     run_cases(acc, gen(), check_case)
